@@ -7,7 +7,7 @@ CONSTANTS
   DelAmts = {}
   MinSelf = 100
   MinSpec = 1000
-  Fixed = FALSE
+  Fixed = TRUE
   MaxOps = 1000000
   GenHist = FALSE
 INIT TInit
